@@ -9,8 +9,8 @@
      quiet e                           events that cannot touch the table while no connection is up
                                        (connect failure, timer, disconnect(), updateMetadata, and the disabled ones)
      CInv                              invariant of every reachable state (C10_reachable) *)
-From AV Require Import Base.Util Model.Framing Model.BrokerClient Model.BrokerClientHook
-  Proofs.BrokerClientTbl Proofs.BrokerClientInv Proofs.BrokerClientC06 Proofs.BrokerClientC10 Proofs.BrokerClientExtra Proofs.BrokerClientHook Proofs.BrokerClientGaps.
+From AV Require Import Base.Util Model.Framing Model.BrokerClient Model.BrokerClientHook Model.BrokerClientSync
+  Proofs.BrokerClientTbl Proofs.BrokerClientInv Proofs.BrokerClientC06 Proofs.BrokerClientC10 Proofs.BrokerClientExtra Proofs.BrokerClientHook Proofs.BrokerClientGaps Proofs.BrokerClientSync.
 
 Theorem C10_reachable : forall evs, CInv (fst (run init evs)).
 Proof. exact reachable_inv. Qed.
@@ -235,6 +235,49 @@ Theorem C10_unguarded_flush_refuted : exists evs s outs a h oc b rid,
 Proof. exact unguarded_flush_refuted. Qed.
 Print Assumptions C10_unguarded_flush_refuted.
 
+(* ------------------------------------------------------------------ connect() completing synchronously
+   Model/BrokerClientSync.v transcribes tryConnect (brokerclient.py:421-429) for an endpoint whose connect() returns an
+   ALREADY fired Deferred: `self.connector = d` is assigned first, then addCallback(cbConnect) / addErrback(ebConnect) run
+   the callback at once.  [sstep s e m]: the step with the connect mode m of the attempt it may start (None pending,
+   Some true succeeded inside the call, Some false failed inside the call). *)
+
+(* THE SIMULATION, for every reachable state, every event, every mode: the synchronous step IS the asynchronous step
+   followed at once by the outcome event - if the step started an attempt at all; otherwise the mode is irrelevant.
+   There is no exception to list: the three callers of tryConnect call it as their last statement. *)
+Theorem C10_sync_step_simulation : forall s e m, CInv s ->
+  sstep s e m =
+  match m with
+  | Some b => if existsb is_connect (snd (step s e))
+              then (fst (step (fst (step s e)) (outcome_ev b)), snd (step s e) ++ snd (step (fst (step s e)) (outcome_ev b)))
+              else step s e
+  | None => step s e
+  end.
+Proof. exact sstep_sim. Qed.
+Print Assumptions C10_sync_step_simulation.
+
+(* whole histories: a history with synchronous outcomes is the asynchronous history [expand] of Model/BrokerClient.v, so
+   EVERY theorem above about runs and reachable states holds for it; the ones the property names are restated *)
+Theorem C10_sync_run_is_async_run : forall evs s, CInv s -> srun s evs = run s (expand s evs).
+Proof. exact srun_expand. Qed.
+Print Assumptions C10_sync_run_is_async_run.
+
+Theorem C10_sync_reachable : forall evs, CInv (fst (srun init evs)).
+Proof. exact reachable_inv_sync. Qed.
+Print Assumptions C10_sync_reachable.
+
+Theorem C10_sync_never_resent : forall evs s outs a h oc b, srun init evs = (s, outs) -> outs = a ++ ODef h oc :: b ->
+  forall rid, ~ In (OWrite h rid) b.
+Proof. exact never_resent_sync. Qed.
+Print Assumptions C10_sync_never_resent.
+
+(* close() - also during the back-off that followed a SYNCHRONOUS failure (seeded change C10-m8) - and then for every
+   continuation, whatever the connect modes: never a write, an attempt or a timer again *)
+Theorem C10_sync_closed_forever : forall evs s s' o, CInv s -> s_down s <> DNone -> srun s evs = (s', o) ->
+  s_down s' <> DNone /\ writes o = [] /\ connects o = [] /\ scheds o = []
+  /\ (forall h oc, In (ODef h oc) o -> oc = FailClosed).
+Proof. exact closed_forever_sync. Qed.
+Print Assumptions C10_sync_closed_forever.
+
 (* ------------------------------------------------------------------ non-vacuity *)
 (* a connected state with an answered (id 3), a cancelled-but-written (id 1), a no-reply (id 4) and two live
    requests (ids 2, 5): lost, two failed attempts, then connected - exactly 2 and 5 are written, in that order *)
@@ -273,6 +316,17 @@ Example cancelled_during_backoff_keeps_connecting :
   = [OConnect 0; OSched 1; ODef 0 FailCancelled; OConnect 0; OSched 2; OConnect 0]
   /\ t_reqs (s_t (fst (run init [EMake 1 true; EConnFail; ECancel 0; EFire]))) = [].
 Proof. vm_compute. split; reflexivity. Qed.
+
+(* connect() fails inside makeRequest; close() during that back-off cancels the timer, fires, fails the request; the
+   timer event afterwards does nothing.  Then: synchronous success inside makeRequest writes the request at once. *)
+Example sync_nonvacuous :
+  snd (srun init [(EMake 1 true, Some false); (EClose, None); (EFire, None)])
+  = [OConnect 0; OSched 1; OCancelTimer; OCloseFired; ODef 0 FailClosed]
+  /\ snd (srun init [(EMake 1 true, Some true); (ELost, Some false); (EFire, Some true)])
+  = [OConnect 0; OWrite 0 1; OConnect 0; OSched 1; OConnect 0; OWrite 0 1]
+  /\ expand init [(EMake 1 true, Some true); (ELost, Some false); (EFire, Some true)]
+  = [EMake 1 true; EConnOk; ELost; EConnFail; EFire; EConnOk].
+Proof. vm_compute. repeat split. Qed.
 
 (* close while backing off, with two requests waiting; later events do nothing *)
 Example close_nonvacuous :
